@@ -121,7 +121,7 @@ fn core_word_div(xs: &mut State) -> Xresult {
             if *b == 0 {
                 Err(Xerr::DivisionByZero)
             } else {
-                let c = Cell::from(a / *b);
+                let c = Cell::from(a.wrapping_div(*b));
                 xs.push_data(c)
             }
         }
@@ -153,7 +153,10 @@ fn core_word_neg(xs: &mut State) -> Xresult {
 fn core_word_abs(xs: &mut State) -> Xresult {
     let a = xs.pop_data()?;
     match a.value() {
-        Cell::Int(a) => xs.push_data(Cell::Int(a.abs())),
+        Cell::Int(a) => {
+            let abs = a.checked_abs().ok_or_else(|| Xerr::IntegerOverflow)?;
+            xs.push_data(Cell::Int(abs))
+        }
         Cell::Real(a) => xs.push_data(Cell::Real(a.abs())),
         _ => Err(num_type_error(a)),
     }
@@ -287,6 +290,12 @@ fn core_word_max(xs: &mut State) -> Xresult {
 }
 
 fn core_word_rem(xs: &mut State) -> Xresult {
+    if let Cell::Int(0) = xs.top_data()?.value() {
+        // the divisor must be checked before the operands are consumed by the generic helper
+        xs.pop_data()?;
+        xs.pop_data()?.to_xint()?;
+        return Err(Xerr::DivisionByZero);
+    }
     arithmetic_ops_real(xs, Xint::wrapping_rem, std::ops::Rem::<f64>::rem)
 }
 
